@@ -149,6 +149,20 @@ def body(tier, seed, replay):
     rng = random.Random(seed)
     tmp = C.scratch_dir('c05_')
     try:
+        if not replay:
+            # design level: ForestSumVisitor + the sort key of packed nodes on the forest of EarleyForest.tla (Resolve.tla)
+            cfg = 'SPECIFICATION Spec\nCONSTANTS\n MaxRules = 3\n MaxLen = %d\n Prios = %s\n%s\nCHECK_DEADLOCK FALSE\n'
+            L, PR = (3, '{0, 1}') if tier == 'quick' else (4, '{0, 1, 2}')
+            res = C.tlc('MC_Resolve', cfg % (L, PR, 'INVARIANT ResolvedIsDerivation\nINVARIANT Optimal'), timeout=3000)
+            C.tlc_must_run(res, 'MC_Resolve')
+            ev.add_tlc('MC_Resolve R=3 L=%d Prios=%s (ambiguous instances)' % (L, PR), res, 'design')
+            if not res.ok:
+                raise C.MachineryFailure('MC_Resolve: %s violated' % res.violated)
+            r2 = C.tlc('MC_Resolve', cfg % (3, '{0, 1}', 'INVARIANT OptimalEvenWithEmptyRules'), timeout=900, workers=4)
+            C.tlc_must_run(r2, 'MC_Resolve (no exemption)')
+            ev.cov['binding_selftest']['model_refutes_optimality_with_empty_rules'] = bool(r2.violated)
+            if not r2.violated:
+                raise C.MachineryFailure('MC_Resolve: optimality holds even with empty rules - the reading of C05 would be too weak or the model vacuous')
         if replay:
             case = json.load(open(replay))
             specs = [case['spec5']]
